@@ -56,25 +56,55 @@ def _build():
     return checklib.go_test_build(CID, PKG, ov)
 
 
-def _server(scratch):
-    srv = blackbox.Server(CID, scratch, name="c18")
-    srv.build()
-    srv.start(wait_s=120)
-    return srv
+# second server: storage layouts. Segments of 8 rows (smallest legal value: multiples of 8) so that a series of 50-81 samples
+# is 7-11 storage records per file; the memtable is never flushed behind the loader's back (the default flushes a shard 5 s
+# after its last write); background out-of-order merge and compaction are switched off so that the layouts stay as written.
+SEG_EXTRA = {"data.memtable": {"write-cold-duration": "2h", "force-snapShot-duration": "2h"},
+             "data": {"max-rows-per-segment": 8}}
+
+
+def _servers(scratch):
+    import threading
+    a = blackbox.Server(CID, scratch, name="c18")
+    b = blackbox.Server(CID, scratch, name="c18seg", extra=SEG_EXTRA)
+    a.build()
+    b.bin = a.bin
+    errs = []
+
+    def go(s):
+        try:
+            s.start(wait_s=120)
+        except Exception as e:  # noqa
+            errs.append(e)
+    th = [threading.Thread(target=go, args=(x,)) for x in (a, b)]
+    [x.start() for x in th]
+    [x.join() for x in th]
+    if errs:
+        a.stop()
+        b.stop()
+        raise blackbox.ToolError(str(errs[0]))
+    # `allshards=false` IS the switch value (engine/sysctrl.go: the value of `allshards` is what is set for all shards)
+    for mod in ("merge", "compen"):
+        st, body = b.ctrl(mod, allshards="false")
+        if st != 200 or b"success" not in body:
+            b.stop()
+            a.stop()
+            raise blackbox.ToolError("ctrl %s on the layout server: %s %r" % (mod, st, body[:200]))
+    return a, b
 
 
 def run(tier, replay):
     t0 = time.time()
     scratch = checklib.scratch_root(CID)
-    srv = None
+    srv = seg = None
     try:
         try:
             binp = _build()
-            srv = _server(scratch)
+            srv, seg = _servers(scratch)
         except blackbox.ToolError as e:
             checklib.tool_error(str(e))
-        env = {"VERIF_SERVER_URL": srv.url}
-        for k in ("VERIF_C18_SETS", "VERIF_C18_EXPR"):
+        env = {"VERIF_SERVER_URL": srv.url, "VERIF_SERVER_URL_SEG": seg.url}
+        for k in ("VERIF_C18_SETS", "VERIF_C18_EXPR", "VERIF_C18_LAYOUTS"):
             if os.environ.get(k):
                 env[k] = os.environ[k]
         if replay:
@@ -92,13 +122,22 @@ def run(tier, replay):
             return 1 if nv else 0
         dl = int(os.environ.get("VERIF_DEADLINE_S", DEADLINE[tier]))
         nw = int(os.environ.get("VERIF_C18_WORKERS", WORKERS[tier]))
-        reps = checklib.run_workers(CID, binp, TEST, tier, nw, dl, scratch, extra_env=env)
-        if not srv.alive():
-            checklib.tool_error("ts-server died during the run (log under %s is removed; rerun with VERIF_TMP)" % scratch)
+        # phase 1: one process ingests every (sample set, layout) into its own database (the flush is server-wide, so the
+        # layouts cannot be built by concurrent workers); phase 2: the workers share the databases read-only
+        env["VERIF_C18_RUN"] = "c18_%d" % (time.time_ns() % 1_000_000_000)
+        lscratch = os.path.join(scratch, "load")
+        os.makedirs(lscratch, exist_ok=True)
+        checklib.run_workers(CID, binp, TEST, tier, 1, 300, lscratch, extra_env=dict(env, VERIF_C18_PHASE="load"))
+        checklib.log("databases loaded after %.1fs" % (time.time() - t0))
+        reps = checklib.run_workers(CID, binp, TEST, tier, nw, dl, scratch, extra_env=dict(env, VERIF_C18_PHASE="query"))
+        for s in (srv, seg):
+            if not s.alive():
+                checklib.tool_error("ts-server %s died during the run (log under %s is removed; rerun with VERIF_TMP)" % (s.name, scratch))
         return checklib.finish(CID, tier, LEVEL, RULE, reps, t0, ASSUMPTIONS)
     finally:
-        if srv is not None:
-            srv.stop()
+        for s in (srv, seg):
+            if s is not None:
+                s.stop()
         if os.environ.get("VERIF_C18_KEEP"):
             print("scratch kept:", scratch, file=sys.stderr)
         else:
